@@ -123,6 +123,24 @@ def run(ctx):
         pre = rng.choice(['', 'b++;', 'asm("nop ; p%d");' % i])
         s_ = 'unsigned char a, b;\ninline void f() { %s %s %s }\nvoid main() { f(); %s }\n' % (pre, body, tail, rng.choice(['', 'f();', 'b = 1;']))
         srcs['e%d' % i] = {'inl': s_, 'sub': s_, 'out': s_.replace('inline ', '')}
+    # functions whose LAST instruction is not a load of their result (post-increment, a call, a
+    # store), wrapped 0..2 times, used as a truth value: the caller must test the accumulator itself
+    for i in range(80 if quick else 2000):
+        ret = rng.choice(['return v++;', 'return v--;', 'return w = v;', 'v++; return w;', 'return v + 1;', 'return t[X];', 'return v & 3;',
+                          'if (v) return w++; return v;', 'return v++ + 1;'])
+        kw = lambda: rng.choice(['inline ', 'inline ', ''])
+        L = ['unsigned char v, r, w; unsigned char t[4];', '%sunsigned char next() { %s }' % (kw(), ret)]
+        top = 'next'
+        for d in range(rng.choice([0, 1, 1, 2])):
+            L.append('%sunsigned char wrap%d() { return %s(); }' % (kw(), d, top))
+            top = 'wrap%d' % d
+        use = rng.choice(['if (%s()) r = 1;', 'if (!%s()) r = 1;', 'if (%s() == 0) r = 1; else r = 2;', 'if (%s() != 0) r = 1;',
+                          'r = %s() ? 2 : 3;', 'do { r++; } while (%s() && r != 5);', 'if (%s() && w) r = 1;', 'if (w || %s()) r = 1;',
+                          'if (%s() > 0) r = 1;', 'for (r = 0; %s() != 0 && r != 4; r++) w++;'])
+        s_ = '\n'.join(L) + '\nvoid main() { %s }\n' % (use % top)
+        if 'inline ' not in s_:
+            s_ = s_.replace('unsigned char next()', 'inline unsigned char next()')
+        srcs['r%d' % i] = {'inl': s_, 'sub': s_, 'out': s_.replace('inline ', '')}
     # nested inlining, each level expanded several times
     for i in range(60 if quick else 1500):
         s = nested_inline_program(rng)
